@@ -90,7 +90,8 @@ def g_inv(shape, pack, salt):
 def g_bool(shape, pack, salt):
     n = int(np.prod(shape)) if shape else 1
     i = np.arange(n, dtype=np.int64)
-    return (((i * 3 + pack + salt) % 3) != 0).reshape(shape)
+    # (i * 3) % 3 is always 0: that mask was all-True or all-False.  A pattern with runs of both values:
+    return (((i * 2 + i // 3 + pack + salt) % 3) != 0).reshape(shape)
 
 
 def g_idx(shape, pack, salt):
